@@ -8,6 +8,12 @@
 //!                                   dmg    plain, every data pack lost and the index repaired BEFORE the flag was set
 //!                                          (both snapshots need repair: `repair snapshots` has real work)
 //!                                   hcdmg  the same on a hot/cold pair
+//!   c15 hnd <setup> <cmd,cmd,…>   the same history on ONE open handle where the API allows it: every `config.*` token is applied
+//!                                 to a handle that stays open, and the next command runs on THAT handle (its in-memory
+//!                                 config is what every guard reads); after a non-config command (which consumes the handle:
+//!                                 `to_indexed…(self)`) a fresh handle is opened.  Same expectation as `aox`: a config change
+//!                                 that is refused — by the append-only guard or by a validation inside `ConfigOptions::apply`,
+//!                                 tokens `config.<ao0|ao1|tg>.x<option>` — must leave the handle's config as it was.
 //!   c15 dry <damage> <cmd>        one command with its dry-run flag on a NOT append-only repository
 //!   c15 dryt <damage> <cmd>       the same, and afterwards the NON-dry twin of the command on the same repository: the
 //!                                 observation carries what the twin wrote / removed, i.e. the dry-run oracle was meaningful
@@ -28,8 +34,8 @@ use crate::repo::{LogOp, MemBackend, MemSource, RepoHandle, SrcEntry, Store, ft_
 use crate::util::{Rng, Stats, errkind, guarded};
 use rustic_core::repofile::{FileType, Node, SnapshotFile};
 use rustic_core::{
-    BackupOptions, CheckOptions, ConfigOptions, Credentials, KeyOptions, LocalDestination, LsOptions, PruneOptions, RepairIndexOptions,
-    RepairSnapshotsOptions, Repository, RestoreOptions, RewriteOptions, RewriteTreesOptions, RusticResult, StringList,
+    BackupOptions, CheckOptions, ConfigOptions, Credentials, KeyOptions, LocalDestination, LsOptions, OpenStatus, PruneOptions,
+    RepairIndexOptions, RepairSnapshotsOptions, Repository, RestoreOptions, RewriteOptions, RewriteTreesOptions, RusticResult, StringList,
 };
 use std::collections::BTreeSet;
 use std::path::PathBuf;
@@ -45,7 +51,11 @@ fn source(variant: u32) -> MemSource {
 }
 
 fn do_backup(h: &RepoHandle, src: &MemSource, dry: bool) -> RusticResult<SnapshotFile> {
-    let repo = h.open_oc()?.to_indexed_ids()?;
+    do_backup_on(h.open_oc()?, src, dry)
+}
+
+fn do_backup_on(repo: Repository<OpenStatus>, src: &MemSource, dry: bool) -> RusticResult<SnapshotFile> {
+    let repo = repo.to_indexed_ids()?;
     let opts = BackupOptions::default().dry_run(dry);
     repo.archive(&opts, src, SnapshotFile::default(), &[PathBuf::from(crate::repo::SRC_ROOT)])
 }
@@ -91,6 +101,12 @@ struct Ctx {
     added_key: Option<rustic_core::repofile::KeyId>,
     /// an oracle that tripped inside a command (reported instead of the observation)
     oracle: Option<String>,
+    /// `hnd`: config changes are applied to a handle that stays open; the next command runs on it
+    one_handle: bool,
+    live: Option<Repository<OpenStatus>>,
+    /// the in-memory config of a handle changed although `apply_config` refused: reported at the end of the sequence unless a
+    /// later command trips a storage oracle first (then the removal itself is the failing observation)
+    soft: Option<String>,
 }
 
 fn res_str<T>(r: &RusticResult<T>) -> String {
@@ -101,9 +117,8 @@ fn res_str<T>(r: &RusticResult<T>) -> String {
 }
 
 /// the accessor / listing / reading methods of `Repository` (the reviewed read-only list next to the command table)
-fn read_only_batch(h: &RepoHandle) -> RusticResult<()> {
+fn read_only_batch(repo: Repository<OpenStatus>) -> RusticResult<()> {
     use rustic_core::repofile::SnapshotId;
-    let repo = h.open_oc()?;
     let _ = repo.config_id()?;
     let _ = repo.infos_files()?;
     let _ = repo.infos_index()?;
@@ -147,8 +162,8 @@ fn read_only_batch(h: &RepoHandle) -> RusticResult<()> {
 }
 
 /// `prepare_restore` of the latest snapshot into a fresh temporary directory
-fn restore_plan(h: &RepoHandle, dry: bool) -> RusticResult<()> {
-    let repo = h.open_oc()?.to_indexed()?;
+fn restore_plan(repo: Repository<OpenStatus>, dry: bool) -> RusticResult<()> {
+    let repo = repo.to_indexed()?;
     let mut snaps = repo.get_all_snapshots()?;
     snaps.sort();
     let Some(s) = snaps.last() else { return Ok(()) };
@@ -163,6 +178,12 @@ fn restore_plan(h: &RepoHandle, dry: bool) -> RusticResult<()> {
 /// run one command token `<name>[.<flag>]*`; the flag `dry` sets the dry-run flag where the command has one
 fn run_cmd(cx: &mut Ctx, cmd: &str) -> Option<String> {
     let h = cx.h.clone();
+    // `hnd`: the handle the preceding config changes were applied to (its in-memory config is what the guards read)
+    let mut live = cx.live.take();
+    let mut open = || match live.take() {
+        Some(r) => Ok(r),
+        None => h.open_oc(),
+    };
     let parts: Vec<&str> = cmd.split('.').collect();
     let has = |f: &str| parts[1..].contains(&f);
     let dry = has("dry");
@@ -175,10 +196,10 @@ fn run_cmd(cx: &mut Ctx, cmd: &str) -> Option<String> {
             } else {
                 cx.last_src
             };
-            res_str(&do_backup(&h, &source(v), dry))
+            res_str(&open().and_then(|repo| do_backup_on(repo, &source(v), dry)))
         }
         "forget" => {
-            let r = h.open_oc().and_then(|repo| {
+            let r = open().and_then(|repo| {
                 let mut snaps = repo.get_all_snapshots()?;
                 snaps.sort();
                 let ids: Vec<_> = snaps.iter().take(1).map(|s| s.id).collect();
@@ -191,20 +212,20 @@ fn run_cmd(cx: &mut Ctx, cmd: &str) -> Option<String> {
             po.instant_delete = has("instant");
             po.repack_all = has("all");
             po.keep_delete = jiff::Span::new();
-            let r = h.open_oc().and_then(|r| r.to_indexed_ids()).and_then(|repo| {
+            let r = open().and_then(|r| r.to_indexed_ids()).and_then(|repo| {
                 let plan = repo.prune_plan(&po)?;
                 repo.prune(&po, plan)
             });
             res_str(&r)
         }
-        "prune_plan" => res_str(&h.open_oc().and_then(|r| r.to_indexed_ids()).and_then(|repo| repo.prune_plan(&PruneOptions::default()))),
+        "prune_plan" => res_str(&open().and_then(|r| r.to_indexed_ids()).and_then(|repo| repo.prune_plan(&PruneOptions::default()))),
         "repair_index" => {
             let opts = RepairIndexOptions::default().read_all(has("readall"));
-            res_str(&h.open_oc().and_then(|repo| repo.repair_index(&opts, dry)))
+            res_str(&open().and_then(|repo| repo.repair_index(&opts, dry)))
         }
         "repair_snap" => {
             let opts = RepairSnapshotsOptions::default().delete(has("delete"));
-            let r = h.open_oc().and_then(|r| r.to_indexed()).and_then(|repo| {
+            let r = open().and_then(|r| r.to_indexed()).and_then(|repo| {
                 let snaps = repo.get_all_snapshots()?;
                 repo.repair_snapshots(&opts, snaps, dry)
             });
@@ -217,7 +238,7 @@ fn run_cmd(cx: &mut Ctx, cmd: &str) -> Option<String> {
             opts.modification = opts.modification.add_tags(vec![StringList::from_str(&format!("t{}", cx.n_backup)).unwrap()]);
             cx.n_backup += 1;
             if parts[0] == "rewrite" {
-                let r = h.open_oc().and_then(|repo| {
+                let r = open().and_then(|repo| {
                     let snaps = repo.get_all_snapshots()?;
                     repo.rewrite_snapshots(snaps, &opts)
                 });
@@ -228,7 +249,7 @@ fn run_cmd(cx: &mut Ctx, cmd: &str) -> Option<String> {
                 if has("excl") {
                     topts.excludes.globs = vec!["!only*".to_string()];
                 }
-                let r = h.open_oc().and_then(|r| r.to_indexed()).and_then(|repo| {
+                let r = open().and_then(|r| r.to_indexed()).and_then(|repo| {
                     let snaps = repo.get_all_snapshots()?;
                     repo.rewrite_snapshots_and_trees(snaps, &opts, &topts)
                 });
@@ -238,7 +259,7 @@ fn run_cmd(cx: &mut Ctx, cmd: &str) -> Option<String> {
         "merge" => {
             // the two oldest snapshots are merged; `delete`: like the CLI's `merge --delete` the merged snapshots are
             // removed afterwards through `delete_snapshots` (a second library call)
-            let r = h.open_oc().and_then(|r| r.to_indexed()).and_then(|repo| {
+            let r = open().and_then(|r| r.to_indexed()).and_then(|repo| {
                 let mut snaps = repo.get_all_snapshots()?;
                 snaps.sort();
                 snaps.truncate(2);
@@ -272,27 +293,61 @@ fn run_cmd(cx: &mut Ctx, cmd: &str) -> Option<String> {
                 Some("none") => {}
                 _ => return None,
             }
-            res_str(&h.open_oc().and_then(|mut repo| repo.apply_config(&o)))
+            // `x<option>`: together with an option value that `ConfigOptions::apply` rejects (every rejectable option; the
+            // first three are validated before `append_only` is assigned, the others after it)
+            let huge = bytesize::ByteSize(1 << 33);
+            match parts.get(2).copied() {
+                None => {}
+                Some("xver") => o.set_version = Some(3),
+                Some("xchunk") => o.set_chunk_size = Some(bytesize::ByteSize(3000)),
+                Some("xcomp") => o.set_compression = Some(100),
+                Some("xtsize") => o.set_treepack_size = Some(huge),
+                Some("xtlimit") => o.set_treepack_size_limit = Some(huge),
+                Some("xdsize") => o.set_datapack_size = Some(huge),
+                Some("xdlimit") => o.set_datapack_size_limit = Some(huge),
+                Some("xminpct") => o.set_min_packsize_tolerate_percent = Some(200),
+                Some("xmaxpct") => o.set_max_packsize_tolerate_percent = Some(50),
+                _ => return None,
+            }
+            if parts.len() > 3 {
+                return None;
+            }
+            match open() {
+                Err(e) => errkind(&e),
+                Ok(mut repo) => {
+                    let before = repo.config().clone();
+                    let r = repo.apply_config(&o);
+                    // a refused change leaves the handle's effective (in-memory) configuration as it was
+                    if r.is_err() && *repo.config() != before {
+                        let what = if before.append_only != repo.config().append_only { "-append-only" } else { "" };
+                        cx.soft.get_or_insert(format!("refused-config-change-altered-handle-config{what}-{cmd}"));
+                    }
+                    if cx.one_handle {
+                        cx.live = Some(repo);
+                    }
+                    res_str(&r)
+                }
+            }
         }
         "key" => match parts.get(1).copied() {
             Some("add") => {
                 let opts = KeyOptions::default();
-                let r = h.open_oc().and_then(|repo| repo.add_key("pw", &opts));
+                let r = open().and_then(|repo| repo.add_key("pw", &opts));
                 if let Ok(id) = &r {
                     cx.added_key = Some(*id);
                 }
                 res_str(&r)
             }
             Some("del") => match cx.added_key.take() {
-                Some(id) => res_str(&h.open_oc().and_then(|repo| repo.delete_key(&id))),
+                Some(id) => res_str(&open().and_then(|repo| repo.delete_key(&id))),
                 None => "skip".into(),
             },
             _ => return None,
         },
-        "check" => res_str(&h.open_oc().and_then(|repo| repo.check(CheckOptions::default().read_data(true)))),
-        "restore" if has("plan") => res_str(&restore_plan(&h, dry)),
+        "check" => res_str(&open().and_then(|repo| repo.check(CheckOptions::default().read_data(true)))),
+        "restore" if has("plan") => res_str(&open().and_then(|repo| restore_plan(repo, dry))),
         "restore" => {
-            let r = h.open_oc().and_then(|r| r.to_indexed()).and_then(|repo| {
+            let r = open().and_then(|r| r.to_indexed()).and_then(|repo| {
                 let snaps = repo.get_all_snapshots()?;
                 for s in &snaps {
                     let _ = crate::repo::read_back(&repo, s)?;
@@ -301,12 +356,12 @@ fn run_cmd(cx: &mut Ctx, cmd: &str) -> Option<String> {
             });
             res_str(&r)
         }
-        "readonly" => res_str(&read_only_batch(&h)),
+        "readonly" => res_str(&open().and_then(read_only_batch)),
         "hotcold" => {
             if has("packs") {
-                res_str(&h.open_oc().and_then(|repo| repo.repair_hotcold_packs(dry)))
+                res_str(&open().and_then(|repo| repo.repair_hotcold_packs(dry)))
             } else {
-                res_str(&h.open_oc().and_then(|repo| repo.repair_hotcold_except_packs(dry)))
+                res_str(&open().and_then(|repo| repo.repair_hotcold_except_packs(dry)))
             }
         }
         "copy" => {
@@ -316,7 +371,7 @@ fn run_cmd(cx: &mut Ctx, cmd: &str) -> Option<String> {
                 cx.n_backup += 1;
                 let sn = do_backup(&h2, &source(500 + cx.n_backup), false)?;
                 let src = h2.open_oc()?.to_indexed()?;
-                let dst = h.open_oc()?.to_indexed_ids()?;
+                let dst = open()?.to_indexed_ids()?;
                 src.copy(&dst, [&sn])
             })();
             res_str(&r)
@@ -329,7 +384,7 @@ fn run_cmd(cx: &mut Ctx, cmd: &str) -> Option<String> {
         // `init_with_config` over the existing repository with the same master key and the current config minus the
         // append-only flag: NOT guarded — the config file is replaced
         "reinit" => {
-            let r = h.open_oc().and_then(|repo| {
+            let r = open().and_then(|repo| {
                 let mut cfg = repo.config().clone();
                 cfg.append_only = None;
                 Repository::new(&RepoHandle::default_opts(), &h.backends_oc())?.init_with_config(
@@ -340,7 +395,7 @@ fn run_cmd(cx: &mut Ctx, cmd: &str) -> Option<String> {
             });
             res_str(&r)
         }
-        "init_hot" => res_str(&h.open_oc().and_then(|repo| repo.init_hot())),
+        "init_hot" => res_str(&open().and_then(|repo| repo.init_hot())),
         _ => return None,
     })
 }
@@ -406,7 +461,7 @@ fn setup(hot: bool, damage: &str) -> Result<Ctx, String> {
         }
         _ => return Err("bad-op".into()),
     }
-    Ok(Ctx { h, n_backup: 0, last_src: 2, added_key: None, oracle: None })
+    Ok(Ctx { h, n_backup: 0, last_src: 2, added_key: None, oracle: None, one_handle: false, live: None, soft: None })
 }
 
 fn idx_of(t: u8) -> usize {
@@ -425,7 +480,7 @@ fn drop_kinds(k: &str, drop: &[&str]) -> String {
     if v.is_empty() { "-".to_string() } else { v.join("+") }
 }
 
-fn exec_ao(setup_kind: &str, seq: &str) -> String {
+fn exec_ao(setup_kind: &str, seq: &str, one_handle: bool) -> String {
     let (hot, damaged) = match setup_kind {
         "plain" => (false, false),
         "hc" => (true, false),
@@ -442,6 +497,7 @@ fn exec_ao(setup_kind: &str, seq: &str) -> String {
     if let Err(e) = cx.h.open_oc().and_then(|mut r| r.apply_config(&o)) {
         return format!("{}@set-append-only", errkind(&e));
     }
+    cx.one_handle = one_handle;
     let mut out = Vec::new();
     for cmd in seq.split(',') {
         let append_only = match cx.h.open_oc() {
@@ -495,6 +551,9 @@ fn exec_ao(setup_kind: &str, seq: &str) -> String {
             out.push(format!("{cmd}={res}:{shown}"));
         }
     }
+    if let Some(o) = cx.soft.take() {
+        return format!("oracle-fail:{o}");
+    }
     format!("ok {}", out.join(","))
 }
 
@@ -540,8 +599,9 @@ fn exec_dry(damage: &str, cmd: &str, twin: bool) -> String {
 pub fn exec(toks: &[&str]) -> String {
     let owned: Vec<String> = toks.iter().map(|s| s.to_string()).collect();
     guarded(move || match (owned.first().map(String::as_str), owned.len()) {
-        (Some("ao"), 2) => exec_ao("plain", &owned[1]),
-        (Some("aox"), 3) => exec_ao(&owned[1], &owned[2]),
+        (Some("ao"), 2) => exec_ao("plain", &owned[1], false),
+        (Some("aox"), 3) => exec_ao(&owned[1], &owned[2], false),
+        (Some("hnd"), 3) => exec_ao(&owned[1], &owned[2], true),
         (Some("dry"), 3) => exec_dry(&owned[1], &owned[2], false),
         (Some("dryt"), 3) => exec_dry(&owned[1], &owned[2], true),
         _ => "bad-op".into(),
@@ -579,7 +639,77 @@ pub const DRY_TWINS: [(&str, &str); 36] = [
     ("none", "hotcold.dry"), ("none", "hotcold.packs.dry"), ("none", "repair_index.dry"), ("none", "repair_snap.delete.dry"),
 ];
 
+/// option values `ConfigOptions::apply` rejects: the first three are validated BEFORE `append_only` is assigned, the others after
+pub const REJECTED_OPTS: [&str; 9] = ["xver", "xchunk", "xcomp", "xtsize", "xtlimit", "xdsize", "xdlimit", "xminpct", "xmaxpct"];
+/// every command with an append-only guard (plus the CLI's `merge --delete`)
+pub const DESTRUCTIVE: [&str; 11] = [
+    "forget", "prune", "prune.instant", "repair_index", "repair_snap.delete", "rewrite.forget", "rewtrees.forget", "rewtrees.forget.excl",
+    "merge.delete", "config.tg", "repair_snap.delete.dry",
+];
+
+fn rejected_cfg(rng: &mut Rng) -> String {
+    format!("config.{}.{}", rng.pick(&["ao0", "ao0", "ao1", "tg"]), rng.pick(&REJECTED_OPTS))
+}
+
 pub fn generate(thorough: bool, rng: &mut Rng, ops: &mut Vec<String>, stats: &mut Stats) {
+    // ONE handle: append-only repository -> refused `apply_config` (valid `set_append_only(false)` + an option rejected inside
+    // `ConfigOptions::apply`, every rejectable option) -> each destructive command on the SAME handle: still refused, nothing
+    // removed.  Plain setup: every option x every command; the other setups: every command with two options each.
+    for setup in ["plain", "hc", "dmg", "hcdmg"] {
+        for (i, c) in DESTRUCTIVE.iter().enumerate() {
+            let opts: Vec<&str> = if setup == "plain" || thorough {
+                REJECTED_OPTS.to_vec()
+            } else {
+                vec![REJECTED_OPTS[3 + (i + setup.len()) % 6], *rng.pick(&REJECTED_OPTS)]
+            };
+            for x in opts {
+                ops.push(format!("c15 hnd {setup} config.ao0.{x},{c}"));
+                stats.hit(format!("op.hnd-rejected-then-destructive.{setup}"));
+            }
+        }
+        // the guard comes before the validation; a rejected change on a handle that is NOT append-only keeps it that way
+        // (and a rejected `set_append_only(true)` does not arm the guards of the handle)
+        for x in REJECTED_OPTS {
+            ops.push(format!("c15 hnd {setup} config.ao1.{x},config.tg.{x},config.ao0,config.ao1.{x},forget,config.ao0.{x},config.tg.{x},config.tg"));
+            ops.push(format!("c15 aox {setup} config.ao0.{x},forget,config.ao0,config.tg.{x},forget"));
+            stats.hit(format!("op.rejected-config.{setup}"));
+        }
+        // accepted changes on one handle: the handle's guards follow (off: allowed; on again: refused)
+        for c in ["forget", "prune", "rewrite.forget", "merge.delete"] {
+            ops.push(format!("c15 hnd {setup} config.ao0,{c}"));
+            ops.push(format!("c15 hnd {setup} config.ao0,config.ao1,{c}"));
+            ops.push(format!("c15 hnd {setup} config.ao0,config.ao1,config.ao0.xminpct,{c},config.ao0,{c}"));
+            stats.hit(format!("op.hnd-accepted.{setup}"));
+        }
+    }
+    // random one-handle histories: runs of config changes (accepted, refused by the guard, rejected by validation), each
+    // followed by a command on the same handle
+    for i in 0..(if thorough { 1500 } else { 120 }) {
+        let setup = ["plain", "plain", "hc", "dmg", "plain", "hcdmg"][i % 6];
+        let mut seq: Vec<String> = Vec::new();
+        let mut forgets = 0;
+        for _ in 0..rng.range(1, 4) {
+            for _ in 0..rng.range(1, 3) {
+                seq.push(match rng.below(8) {
+                    0 => "config.ao0".to_string(),
+                    1 => "config.ao1".to_string(),
+                    2 => rng.pick(&["config.tg", "config.ev", "config.none"]).to_string(),
+                    _ => rejected_cfg(rng),
+                });
+            }
+            let c = if rng.chance(2, 3) { *rng.pick(&DESTRUCTIVE) } else { *rng.pick(&AO_CMDS) };
+            let c = if c.contains(".keep") && !c.contains("repair") && !c.contains(".dry") { "merge" } else { c };
+            let c = if c == "forget" {
+                forgets += 1;
+                if forgets > 2 { "prune" } else { c }
+            } else {
+                c
+            };
+            seq.push(c.to_string());
+        }
+        ops.push(format!("c15 hnd {setup} {}", seq.join(",")));
+        stats.hit(format!("op.hnd-seq.{setup}"));
+    }
     // every command once on its own, right after the repository was marked append-only — on every setup
     for setup in ["plain", "hc", "dmg", "hcdmg"] {
         for c in AO_CMDS.iter().chain(RARE_CMDS.iter()).chain(["copy", "key.add,key.del"].iter()) {
@@ -618,6 +748,7 @@ pub fn generate(thorough: bool, rng: &mut Rng, ops: &mut Vec<String>, stats: &mu
                 }
                 3 => "copy".to_string(),
                 4 if rng.chance(1, if thorough { 4 } else { 8 }) => rng.pick(&RARE_CMDS).to_string(),
+                5 if rng.chance(1, 2) => rejected_cfg(rng),
                 _ => rng.pick(&AO_CMDS).to_string(),
             };
             // `rewrite.keep` doubles the number of snapshots: at most three per sequence
